@@ -31,6 +31,7 @@ LOOP_CLASSES = [
     ('shiftup', re.compile(r'while \( source > ')),
     ('copybytes', re.compile(r'for \( i = 0; i < _yybytes_len')),
     ('popall', re.compile(r'while\s*\(\s*yy_current_buffer\(\)\s*\)')),
+    ('action_site', re.compile(r'vp_visit\(')),
     ('once', re.compile(r'YY_DO_BEFORE_ACTION|yyecho\(\)|ECHO|YY_INPUT\(|while \( 0 \)|while\(0\)')),
 ]
 
